@@ -148,10 +148,13 @@ var c20Families = []family{
 	{name: "setter password", frag: ":@", setter: "password"},
 	{name: "setter port", frag: "1", setter: "port"},
 	{name: "setter protocol", frag: "a", suffix: ":", setter: "protocol"},
-	// the repeated fragment is itself a long token ({T} = 1 300 and 5 000 bytes: beyond the growth steps
+	// the repeated fragment is itself a long token ({T} = 1 300 .. 5 000 bytes: beyond the growth steps
 	// of a byte buffer): many long path segments, long parameter values, long labels
 	{name: "path segments of 1300", prefix: "http://h", frag: "/{T1300}"},
+	{name: "path segments of 1700", prefix: "http://h", frag: "/{T1700}"},
+	{name: "path segments of 2500", prefix: "http://h", frag: "/{T2500}"},
 	{name: "path segments of 5000", prefix: "http://h", frag: "/{T5000}"},
+	{name: "query values of 2500", prefix: "http://h/?", frag: "k={T2500}&", sp: true},
 	{name: "path segments of 1300 then ..", prefix: "http://h", frag: "/{T1300}/.."},
 	{name: "query values of 1300", prefix: "http://h/?", frag: "k={T1300}&", sp: true},
 	{name: "nonspecial segments of 1300", prefix: "a:", frag: "/{T1300}"},
@@ -194,7 +197,7 @@ func (f family) build(n int) (input, base string) {
 	if m := longTokenRe.FindStringSubmatch(f.frag); m != nil {
 		k, _ := strconv.Atoi(m[1])
 		f.frag = strings.Replace(f.frag, m[0], strings.Repeat("a", k), 1)
-		n *= 16 // many repetitions of a long token: 16 KiB .. 256 KiB in quick (the measurement records the real length)
+		n *= 64 // many repetitions of a long token: 64 KiB .. 1 MiB in quick (the measurement records the real length)
 	}
 	prefix := strings.Replace(f.prefix, "/DEEP", strings.Repeat("/d", n/4), 1)
 	reps := n / max(1, len(f.frag))
